@@ -91,6 +91,8 @@ Definition c03_expect (op : opk) (n : nat) (l : list (nat * ev)) : option (list 
   | OTakeUntil => if Nat.eqb n 2 then (Some (spec_take_until [] flip2), Some (mrun OTakeUntil 1 flip2)) else (None, None)
   | OSkipUntil => if Nat.eqb n 2 then (Some (spec_skip_until false [] flip2), Some (mrun OSkipUntil 1 flip2)) else (None, None)
   | OSample => if Nat.eqb n 2 then (Some (spec_sample None [] flip2), Some (mrun OSample 1 flip2)) else (None, None)
+  | OConcat => (Some (spec_concat n 0 l), Some (mrun_first OConcat k l))
+  | OResume => if Nat.eqb n 2 then (Some (spec_resume 0 l), Some (mrun_first OResume 1 l)) else (None, None)
   | OCombineLatest f => (Some (spec_combine_latest f n [] (repeat None n) l), None)
   | OSequenceEqual => if Nat.eqb n 2 then (spec_sequence_equal2 l, None) else (None, None)
   | OFlatMap SelMod =>       (* inner = others[x mod (n-1)] = source 1 + x mod (n-1) *)
